@@ -56,7 +56,7 @@ RULE = ('reader: every text of <=L lines over the line alphabet (L=4 quick, 5 th
 ASSUMPTIONS = [
     'bounded scope: cnfs(1,4), cnfs(2,3), cnfs(3,2) (thorough: cnfs(1,5), cnfs(2,3), cnfs(3,2), '
     'cnfs(4,1)); line language <=4 lines (thorough 5) over 26 lines; problem line + <=5 body lines '
-    'over 10 lines (thorough <=6 over 12); exotic alphabet <=3 lines; '
+    'over 10 lines (thorough <=6); exotic alphabet <=3 lines; '
     'fault bound 1 on ~50 formulas x 3 renderings (to_dimacs, header, varnames), bound 2 on the '
     'to_dimacs renderings (thorough: also the varnames renderings)',
     'trusted reference: ref/c06_dimacs_ref.py (strict reader and line classifier written from the '
@@ -107,7 +107,7 @@ LINES = [
 DEEP_FIRST = ['p cnf 2 1', 'p cnf 2 2', 'p cnf 2 3', 'p cnf 3 2', 'p cnf 1 2', 'p cnf 0 1',
               'p cnf 2 0', 'p  cnf 2 2 ']
 DEEP_BODY = ['1 -2 0', '1 2', '0', '3 0', '-1', '2 0 -1', 'c x', '', 'p cnf 2 2', 'x 0']
-DEEP_BODY_THOROUGH = DEEP_BODY + ['1 0 2 0', '-2']
+DEEP_BODY_THOROUGH = DEEP_BODY
 
 EXOTIC = [
     'p cnf 10 1', 'p cnf 2 1', 'pcnf 2 1 1', 'p cnf 1_0 1', 'p cnf +2 1', 'p cnf 2 \u0661',
